@@ -4,6 +4,7 @@ import (
 	"bufio"
 	"fmt"
 	"io"
+	"os"
 	"os/exec"
 	"strconv"
 	"strings"
@@ -169,6 +170,14 @@ func (s *Solver) order() []int {
 }
 
 var solverStartMu sync.Mutex
+var slowLog = os.Getenv("VF_PROGRESS") != ""
+
+func truncateStr(s string, n int) string {
+	if len(s) > n {
+		return s[:n] + "..."
+	}
+	return s
+}
 
 func NewSolver(timeoutMs int) *Solver {
 	s := &Solver{TimeoutMs: timeoutMs, cache: map[string]Result{}, StageMs: 400, wins: make([]int, len(backends))}
@@ -386,6 +395,7 @@ func (s *Solver) check(pc []*Term, asserts []*Term, vals []*Term, useCache bool)
 		}
 	}
 	s.Stats.Queries++
+	tq := time.Now()
 	res := Unknown
 	var model map[string]ModelVal
 	type ans struct {
@@ -455,6 +465,13 @@ loop:
 			<-ch
 			pending--
 		}
+	}
+	if slowLog && time.Since(tq) > 5*time.Second {
+		ex := ""
+		for _, a := range live {
+			ex += " " + truncateStr(a.SMT(), 300)
+		}
+		fmt.Fprintf(os.Stderr, "[slow query %.1fs pc=%d answers=%d]%s\n", time.Since(tq).Seconds(), len(pc), len(answers), ex)
 	}
 	if len(answers) > 0 {
 		res, model = answers[0].r, answers[0].m
